@@ -452,6 +452,16 @@ def _check_status_init(ctx):
             d = f"store `{stmt_text(st)}` under `{stmt_text(lp) if lp else None}` (required: for operator in pipeline.values)"
     ctx.ob(8, "K6", "operator_states is filled in DAG-iteration (parents-first) order with PENDING", ok, init, stores[0] if stores else init.node,
            construct="for operator in pipeline.values: operator_states[operator] = PENDING", detail=d)
+    # the table is keyed by the operator object itself: two operators are two keys only while operators compare and hash by identity
+    # (a value-based __eq__/__hash__ on Operator or its base class merges look-alike siblings into one entry, and the dependency test
+    # then reads the sibling's state)
+    bad = value_equality_defs(P, "Operator")
+    ctx.ob(8, "K1", "operators are distinguished by identity wherever they key the state table: neither Operator nor its base classes define a "
+           "value-based __eq__ / __hash__", not bad, file=bad[0][0].mod.rel if bad else "eudoxia/workload/pipeline.py",
+           construct="Operator identity", detail="; ".join(t for _, _, t in bad) if bad else "object identity (no __eq__/__hash__ in Operator, Node)")
+    if bad:
+        ctx.obs[-1].line = bad[0][0].mod.line(bad[0][1])
+        ctx.obs[-1].func = bad[0][0].name
 
 
 def check_dag_writers(ctx, num=9):
